@@ -36,6 +36,7 @@ META = {
     "replay": True,
 }
 
+GEN_ACTIONS = ["GAttach", "GDrop", "GNotify", "GDrain", "GRecreate", "GPBegin", "GCb", "GNotifyIn", "GPEnd"]
 INVS = ["NeverDetached", "Exact", "NothingLost", "AttachRefusedCleanly"]
 SIG_STALE = "refused-attach:stale-deadline-maps"
 SIG_RFULL = "refused-attach:reactor-capacity-reported-as-AlreadyAttached"
@@ -116,14 +117,14 @@ def behaviours(res):
     return out
 
 
-def generate(ctx, name, consts, mode, n_keep, rng, simulate=None, workers=1):
+def generate(ctx, name, consts, mode, n_keep, rng, simulate=None, workers=1, extra=None, check=False):
     """mode 'all': state cover (one shortest behaviour per abstract state where a call just ended);
     mode 'end': -simulate behaviours of MaxSteps steps."""
-    extra = "VIEW AbstractView\nINVARIANT EmitBehaviour\n" if mode == "all" else "INVARIANT EmitBehaviour\n"
+    cfg_extra = "VIEW AbstractView\nINVARIANT EmitBehaviour\n" if mode == "all" else "INVARIANT EmitBehaviour\n"
     c = dict(consts)
     c["Emit"] = tla(mode)
-    d = write_mc(ctx, name, "WaitSetGen", c, [], extra)
-    res = vp.tlc(d, name, workers=workers, timeout=600, libs=["api"], simulate=simulate, coverage=False)
+    d = write_mc(ctx, name, "WaitSetGen", c, (["TypeOK"] + INVS) if check else [], cfg_extra)
+    res = vp.tlc(d, name, workers=workers, timeout=900, libs=["api"], simulate=simulate, coverage=check, extra=extra)
     if res.timed_out or (not res.ok and not simulate):
         raise vp.ToolError(f"generation {name} failed: {res.error}\n{res.output[-2000:]}")
     if simulate and (res.error or res.violated):
@@ -131,7 +132,9 @@ def generate(ctx, name, consts, mode, n_keep, rng, simulate=None, workers=1):
     hs = behaviours(res)
     if not hs:
         raise vp.ToolError(f"generation {name} produced no behaviour\n{res.output[-2000:]}")
-    vp.record_tlc(ctx, f"generate[{name}]", res, count=False)
+    vp.record_tlc(ctx, f"generate[{name}]", res, count=check)
+    if check:
+        vp.check_action_coverage(res, GEN_ACTIONS, name)
     if len(hs) > n_keep:
         # keep the longest ones preferentially (they contain the shorter ones as prefixes) plus a sample
         hs.sort(key=lambda h: -len(h))
@@ -236,15 +239,16 @@ def validate(ctx, trace, summary, tag):
         rec = cur_recs[pos - 1] if pos else {}
         run, rel = vp.run_containing(cur_recs, pos) if pos else (cur_recs[:40], 0)
         sig = classify(rec, obs_of(v), run[0]) if v.invariant == "AttachRefusedCleanly" else None
-        what = (f"{summary['mode']}: invariant {v.invariant} violated by record #{rel} of run {run[0].get('run')}: {rec}"
+        mode = run[0].get("svc", "?")
+        what = (f"{mode}: invariant {v.invariant} violated by record #{rel} of run {run[0].get('run')}: {rec}"
                 if v.invariant else
-                f"{summary['mode']}: record #{rel} of run {run[0].get('run')} is not explainable: {rec}")
+                f"{mode}: record #{rel} of run {run[0].get('run')} is not explainable: {rec}")
         if sig is None:
             if v.invariant:
                 sig = f"{v.invariant}:{rec.get('a')}:{rec.get('ty', rec.get('r', ''))}"
             else:
                 sig = f"unexplained:{rec.get('a')}"
-        ctx.report(vp.Violation(what, replay={"mode": summary["mode"], "invariant": v.invariant, "record": rec,
+        ctx.report(vp.Violation(what, replay={"mode": mode, "invariant": v.invariant, "record": rec,
                                               "obs": obs_of(v), "run": run[:rel + 1], "program": program_of(run),
                                               "cmd": "bin/check C20 --replay <this file>"},
                                 signature=sig))
@@ -358,38 +362,31 @@ def _run(ctx):
         "descriptor<->deadline map sizes are read from the Debug representation of the wait set",
     ]
     traces, summaries = [], {}
-    all_ok = True
-    hints = {"stale": False, "rfull": False}
 
     # ---- 1. property layer closed with the ideal implementation: the clauses are consistent, every action reachable
-    mcs = [("MCG_2_3", {"NL": 2, "NS": 2, "NG": 3, "Cap": 2, "MaxSteps": 0, "Emit": tla("none")})]
+    mcs = []       # quick: checked together with the state-cover generation below (same state space)
     if not quick:
-        mcs += [("MCG_3_3", {"NL": 3, "NS": 2, "NG": 3, "Cap": 3, "MaxSteps": 0, "Emit": tla("none")}),
+        mcs += [("MCG_2_3", {"NL": 2, "NS": 2, "NG": 3, "Cap": 2, "MaxSteps": 0, "Emit": tla("none")}),
+                ("MCG_3_3", {"NL": 3, "NS": 2, "NG": 3, "Cap": 3, "MaxSteps": 0, "Emit": tla("none")}),
                 ("MCG_3_4", {"NL": 3, "NS": 1, "NG": 4, "Cap": 3, "MaxSteps": 0, "Emit": tla("none")})]
     for name, consts in mcs:
         d = write_mc(ctx, name, "WaitSetGen", consts, ["TypeOK"] + INVS)
         res = vp.tlc(d, name, workers=8, timeout=1200, libs=["api"])
         vp.record_tlc(ctx, f"WaitSetGen[{name}]", res)
         vp.tlc_require_ok(res, name)
-        vp.check_action_coverage(res, ["GAttach", "GDrop", "GNotify", "GDrain", "GRecreate", "GPBegin", "GCb",
-                                       "GNotifyIn", "GPEnd"], name)
+        vp.check_action_coverage(res, GEN_ACTIONS, name)
 
     # ---- 2. generation (TLC) and execution on the real wait set, validation by TLC (V1)
-    gen_sets = []
-    cover, _ = generate(ctx, "GEN_cover_2_3", {"NL": 2, "NS": 2, "NG": 3, "Cap": 99, "MaxSteps": 40}, "all",
-                        250 if quick else 3000, rng)
-    gen_sets.append(("cover", {"nl": 2, "ng": 3, "cap": 99, "nsvc": 2}, cover))
-    sim, _ = generate(ctx, "GEN_sim_3_4", {"NL": 3, "NS": 2, "NG": 4, "Cap": 99, "MaxSteps": 60}, "end",
-                      60 if quick else 600, rng, simulate=f"num={60 if quick else 600}", workers=1)
-    gen_sets.append(("sim", {"nl": 3, "ng": 4, "cap": 99, "nsvc": 2}, sim))
+    nsim = 40 if quick else 500
+    cover, _ = generate(ctx, "GEN_cover", {"NL": 2, "NS": 2, "NG": 2 if quick else 3, "Cap": 99, "MaxSteps": 40},
+                        "all", 600 if quick else 4000, rng, workers=4)
     capc, _ = generate(ctx, "GEN_cover_cap", {"NL": 2, "NS": 2, "NG": 3, "Cap": 2, "MaxSteps": 40}, "all",
-                       200 if quick else 2500, rng)
-    simc, _ = generate(ctx, "GEN_sim_cap", {"NL": 3, "NS": 2, "NG": 4, "Cap": 3, "MaxSteps": 60}, "end",
-                       40 if quick else 400, rng, simulate=f"num={40 if quick else 400}", workers=1)
-    ctx.evaluations += sum(len(h) for _, _, h in gen_sets) * 2 + len(capc) + len(simc)
+                       700 if quick else 4000, rng, workers=4, check=True)
+    sim, _ = generate(ctx, "GEN_sim", {"NL": 3, "NS": 2, "NG": 4, "Cap": 3, "MaxSteps": 60}, "end",
+                      nsim, rng, simulate=f"num={nsim}", workers=1, extra=["-seed", str(ctx.seed), "-depth", "70"])
+    ctx.coverage["generated_by_tlc"] = {"state_cover": len(cover), "state_cover_capacity": len(capc), "simulate": len(sim)}
 
     def go(mode, tag, programs=None, **kw):
-        nonlocal all_ok
         trace, summ = run_driver(ctx, mode, tag, programs=programs, **kw)
         if summ.get("unsupported"):
             ctx.note(f"{tag}: not exercised: {summ['unsupported']}")
@@ -398,26 +395,22 @@ def _run(ctx):
         traces.append(trace)
         if summ.get("panics"):
             ctx.note(f"{tag}: the code under test panicked (recorded in the trace)")
-        ok, h = validate(ctx, trace, summ, tag)
-        for k in h:
-            hints[k] = hints[k] or h[k]
-        all_ok = all_ok and ok
         return summ
 
     for mode in ("ipc", "local"):
-        for gname, meta, hs in gen_sets:
-            progs = [fold_behaviour(h, dict(meta, svc=mode)) for h in hs]
-            go(mode, f"{mode}-{gname}", programs=progs)
+        ng_c = 2 if quick else 3
+        progs = [fold_behaviour(h, {"nl": 2, "ng": ng_c, "cap": 99, "nsvc": 2, "svc": mode}) for h in cover] \
+            + [fold_behaviour(h, {"nl": 3, "ng": 4, "cap": 99, "nsvc": 2, "svc": mode}) for h in sim]
+        go(mode, f"{mode}-tlc", programs=progs)
         s = go(mode, f"{mode}-random", random_n=40 if quick else 600, steps=50, nl=3, ng=4, cap=99, nsvc=2)
         need(s, f"{mode}-random", ["attach_n", "attach_d", "attach_i", "drop", "notify", "process", "recreate", "drain"])
         if s["callbacks"] == 0 or s["inject"] == 0 or s["stops"] == 0 or s["reattach_same_fd"] == 0 \
                 or s["refused"].get("AlreadyAttached", 0) == 0:
             raise vp.ToolError(f"vacuous driver run {mode}-random: {s}")
     # capacity clause: select-based variant, counter path (interval fillers)
-    progs = [fold_behaviour(h, {"nl": 2, "ng": 3, "cap": 2, "nsvc": 2, "svc": "sel"}) for h in capc]
-    go("sel", "sel-cover", programs=progs)
-    progs = [fold_behaviour(h, {"nl": 3, "ng": 4, "cap": 3, "nsvc": 2, "svc": "sel"}) for h in simc]
-    go("sel", "sel-sim", programs=progs)
+    progs = [fold_behaviour(h, {"nl": 2, "ng": 3, "cap": 2, "nsvc": 2, "svc": "sel"}) for h in capc] \
+        + [fold_behaviour(h, {"nl": 3, "ng": 4, "cap": 3, "nsvc": 2, "svc": "sel"}) for h in sim]
+    go("sel", "sel-tlc", programs=progs)
     s = go("sel", "sel-random", random_n=30 if quick else 400, steps=50, nl=3, ng=4, cap=3, nsvc=2)
     if s["refused"].get("InsufficientCapacity", 0) == 0:
         raise vp.ToolError(f"capacity clause not exercised in sel-random: {s}")
@@ -428,10 +421,17 @@ def _run(ctx):
         for r in vp.read_ndjson(traces[-1]))
     if s is None or not rfull_exercised:
         ctx.note("reactor-level capacity (ReactorAttachError::CapacityExceeded) was NOT exercised")
-    ctx.distinct = len({json.dumps(program_of(r), sort_keys=True) for t in traces for r in vp.split_runs(vp.read_ndjson(t))})
-    for t in traces[:2]:
-        runs = vp.split_runs(vp.read_ndjson(t))
-        r = runs[min(3, len(runs) - 1)]
+    # one concatenated trace: the JVM starts once
+    allrecs = []
+    for t in traces:
+        allrecs += vp.read_ndjson(t)
+    big = ctx.path("traces", "all.ndjson")
+    vp.write_ndjson(big, allrecs)
+    runs = vp.split_runs(allrecs)
+    ctx.evaluations = len(runs)
+    ctx.distinct = len({json.dumps(program_of(r), sort_keys=True) for r in runs if len(r) > 3})
+    ok, hints = validate(ctx, big, {"mode": "all"}, "all")
+    for r in (runs[3], runs[len(runs) // 2]):
         ctx.sample({"svc": r[0]["svc"], "program": program_of(r)["steps"][:14],
                     "recorded": [f"{x.get('a')}:{x.get('r', x.get('ev', ''))}{x.get('dl', '')}" for x in r[1:24]]})
 
@@ -440,45 +440,48 @@ def _run(ctx):
     ctx.coverage["impl_parameters_extracted"] = params
     if not seen["InsertBeforeCheck"]:
         ctx.note("parameter InsertBeforeCheck could not be extracted (no refused attach_deadline observed)")
-    conforms = True
-    for t in traces:
-        tag = os.path.basename(t)[:-7]
-        conforms = validate_impl(ctx, t, tag, params) and conforms
-    impls = [("MCI_free", {"NL": 2, "NS": 2, "NG": 2 if quick else 3, "Cap": 9, "RCap": 9, "MaxIdx": 3}, INVS),
-             ("MCI_cap", {"NL": 2, "NS": 2, "NG": 3, "Cap": 2, "RCap": 9, "MaxIdx": 3 if quick else 4},
-              ["NeverDetached", "Exact", "NothingLost"]),
-             ("MCI_cap_clean", {"NL": 2, "NS": 1, "NG": 3, "Cap": 2, "RCap": 9, "MaxIdx": 3}, ["AttachRefusedCleanly"]),
-             ("MCI_rcap_clean", {"NL": 2, "NS": 1, "NG": 3, "Cap": 9, "RCap": 1, "MaxIdx": 2}, ["AttachRefusedCleanly"])]
+    conforms = validate_impl(ctx, big, "all", params)
+    impls = [("MCI_free", {"NL": 2, "NS": 2, "NG": 2 if quick else 3, "Cap": 9, "RCap": 9, "MaxIdx": 3}),
+             # counter capacity and reactor capacity both reachable
+             ("MCI_cap", {"NL": 2, "NS": 2, "NG": 3, "Cap": 2, "RCap": 2, "MaxIdx": 3 if quick else 4})]
     if not quick:
-        impls.append(("MCI_free3", {"NL": 3, "NS": 2, "NG": 3, "Cap": 9, "RCap": 9, "MaxIdx": 3}, INVS))
-    for name, consts, invs in impls:
-        c = dict(consts)
-        c.update({k: tla(v) for k, v in params.items()})
-        d = write_mc(ctx, name, "WaitSetImpl", c, ["ImplTypeOK"] + invs, "CONSTRAINT IdxBound\n")
-        res = vp.tlc(d, name, workers=8, timeout=1500, libs=["api"])
-        vp.record_tlc(ctx, f"WaitSetImpl[{name} {params}]", res)
-        if res.timed_out:
-            raise vp.ToolError(f"TLC timed out on {name}")
-        if res.violated:
-            if not conforms:
-                ctx.note(f"{name}: {res.violated} refuted, but the model does not conform to this build (drift) - no verdict")
+        impls.append(("MCI_free3", {"NL": 3, "NS": 2, "NG": 3, "Cap": 9, "RCap": 9, "MaxIdx": 3}))
+        impls.append(("MCI_cap3", {"NL": 3, "NS": 1, "NG": 3, "Cap": 3, "RCap": 2, "MaxIdx": 3}))
+    for name, consts in impls:
+        invs = list(INVS)
+        while True:
+            c = dict(consts)
+            c.update({k: tla(v) for k, v in params.items()})
+            d = write_mc(ctx, name, "WaitSetImpl", c, ["ImplTypeOK"] + invs, "CONSTRAINT IdxBound\n")
+            res = vp.tlc(d, name, workers=8, timeout=1500, libs=["api"])
+            vp.record_tlc(ctx, f"WaitSetImpl[{name} {params} {invs}]", res)
+            if res.timed_out:
+                raise vp.ToolError(f"TLC timed out on {name}")
+            if res.violated and res.violated in invs:
+                if not conforms:
+                    ctx.note(f"{name}: {res.violated} refuted, but the model does not conform to this build (drift) - no verdict")
+                    break
+                acts = cex_actions(res)
+                sig = f"model:{res.violated}"
+                if res.violated == "AttachRefusedCleanly":
+                    o = re.sub(r"\s+", " ", last_state(res))
+                    if re.search(r'got \|-> "AlreadyAttached"', o) and "IAttach" in acts[-1]:
+                        sig = SIG_RFULL
+                    elif re.search(r'got \|-> "InsufficientCapacity"', o) and acts[-1].startswith("IAttachD"):
+                        sig = SIG_STALE
+                ctx.report(vp.Violation(
+                    f"TLC refutes {res.violated} on WaitSetImpl.tla instantiated with the behaviour of this build {params}: "
+                    + " ; ".join(acts[1:]),
+                    replay={"model": name, "invariant": res.violated, "parameters": params, "actions": acts,
+                            "last_state": last_state(res)}, signature=sig))
+                invs.remove(res.violated)      # keep checking the other clauses
+                if not invs:
+                    break
                 continue
-            acts = cex_actions(res)
-            if res.violated == "AttachRefusedCleanly" and name == "MCI_cap_clean":
-                sig = SIG_STALE
-            elif res.violated == "AttachRefusedCleanly" and name == "MCI_rcap_clean":
-                sig = SIG_RFULL
-            else:
-                sig = f"model:{name}:{res.violated}"
-            ctx.report(vp.Violation(
-                f"TLC refutes {res.violated} on WaitSetImpl.tla instantiated with the behaviour of this build {params}: "
-                + " ; ".join(acts[1:]),
-                replay={"model": name, "invariant": res.violated, "parameters": params, "actions": acts,
-                        "last_state": last_state(res)}, signature=sig))
-            continue
-        if not res.ok:
-            raise vp.ToolError(f"TLC failed on {name}: {res.error}\n{res.output[-3000:]}")
-        vp.check_action_coverage(res, ["IAttachN", "IAttachD", "IAttachI", "IDrop", "IPBegin", "ICb", "IPEnd"], name)
+            if not res.ok:
+                raise vp.ToolError(f"TLC failed on {name}: {res.error}\n{res.output[-3000:]}")
+            vp.check_action_coverage(res, ["IAttachN", "IAttachD", "IAttachI", "IDrop", "IPBegin", "ICb", "IPEnd"], name)
+            break
 
     # ---- 4. selftest of the binding (thorough): a corrupted trace must be rejected
     if not quick:
@@ -487,7 +490,6 @@ def _run(ctx):
     ctx.coverage["rule"] = ("evaluations = programs executed on the real WaitSet (TLC state-cover behaviours, TLC "
                             "-simulate behaviours, seeded on-line generator) over ipc/local/sel/selfd; distinct = "
                             "distinct recorded programs; states/transitions = TLC on WaitSetGen and WaitSetImpl")
-    ctx.evaluations = sum(s["programs"] for s in summaries.values())
 
 
 def selftest(ctx, trace):
